@@ -1502,57 +1502,67 @@ func (t *table) gc(now bigtable.Timestamp, done <-chan struct{}, force bool) {
 
 	// TODO(scottb): could collect batches of rows that need GC with only a read lock, update with write lock.
 
-	i := 0
-	var emptied []keyType
-	defer func() {
-		// Remove rows left without cells. Rows does not specify what happens if rows are
-		// deleted during iteration, so this happens afterwards (the lock is held again);
-		// a client may have written the row anew while the lock was released.
-		for _, k := range emptied {
-			if r := t.rows.Get(k); r != nil && len(r.Families) == 0 {
-				t.rows.Delete(k)
+	// Rows does not specify what happens if rows are replaced or deleted during iteration (the
+	// btree engine skips rows when a replacement splits a full node, and clients write while the
+	// lock is handed over), so the pass works in batches: visit up to gcBatchRows rows, stop the
+	// iteration, store the changes, hand the lock over and resume after the last row visited.
+	const gcBatchRows = 100
+	var next keyType
+	for {
+		var changedRows []*btpb.Row
+		var last keyType
+		n, more := 0, false
+		visit := func(r *btpb.Row) bool {
+			if n == gcBatchRows {
+				more = true
+				return false
 			}
-		}
-	}()
-	t.rows.Ascend(func(r *btpb.Row) bool {
-		// The iteration may run on a snapshot taken before the lock was last released;
-		// always collect the row as it is stored now.
-		if r = t.rows.Get(r.Key); r == nil {
-			return true
-		}
-		changed := false
-		for _, fam := range r.Families {
-			gcRule := rules[fam.Name]
-			if gcRule != nil {
-				for _, col := range fam.Columns {
-					n := len(col.Cells)
-					col.Cells = applyGC(col.Cells, gcRule, now)
-					changed = changed || n != len(col.Cells)
+			n++
+			last = r.Key
+			changed := false
+			for _, fam := range r.Families {
+				gcRule := rules[fam.Name]
+				if gcRule != nil {
+					for _, col := range fam.Columns {
+						n := len(col.Cells)
+						col.Cells = applyGC(col.Cells, gcRule, now)
+						changed = changed || n != len(col.Cells)
+					}
 				}
 			}
-		}
-		if changed {
-			r, _ := scrubRow(r, t.cols())
-			t.rows.ReplaceOrInsert(r)
-			if len(r.Families) == 0 {
-				emptied = append(emptied, r.Key)
+			if changed {
+				r, _ := scrubRow(r, t.cols())
+				changedRows = append(changedRows, r)
 			}
-		}
-		i++
-		if i%100 != 0 {
 			return true
 		}
+		if next == nil {
+			t.rows.Ascend(visit)
+		} else {
+			t.rows.AscendGreaterOrEqual(next, visit)
+		}
+		for _, r := range changedRows {
+			if len(r.Families) == 0 {
+				t.rows.Delete(r.Key) // rows left without cells are removed
+			} else {
+				t.rows.ReplaceOrInsert(r)
+			}
+		}
+		if !more {
+			return
+		}
+		next = append(append(keyType{}, last...), 0) // the smallest key after the last row visited
 
 		// Reverse lock; check if we should exit
 		t.mu.Unlock()
-		defer t.mu.Lock()
 		select {
 		case <-done:
-			return false // server has been closed
+			t.mu.Lock()
+			return // server has been closed
 		default:
-			return true
 		}
-	})
+		t.mu.Lock()
+	}
 }
 
 func (t *table) read() {
